@@ -417,7 +417,8 @@ class SymDomain(BaseDomain):
             moveaxis=lambda a, s, t: wrap(np.moveaxis(wrap(a), s, t), wrap(a).kind),
             swapaxes=lambda a, s, t: wrap(np.swapaxes(wrap(a), s, t), wrap(a).kind),
             reshape=lambda a, shape, order="C", **k: wrap(np.reshape(wrap(a), shape, order=order), wrap(a).kind),
-            ravel=lambda a: wrap(np.ravel(wrap(a)), wrap(a).kind),
+            ravel=lambda a, order="C": wrap(np.ravel(np.asarray(wrap(a), dtype=object), order=order).copy(), wrap(a).kind),   # (K / A: the real layout)
+            kron=lambda a, b: SymArr(np.kron(np.asarray(wrap(a), dtype=object), np.asarray(wrap(b), dtype=object)), combine_kind(wrap(a), wrap(b))),
             conjugate=d.np_conj, conj=d.np_conj, real=d.np_real, imag=d.np_imag,
             sum=d.np_sum, prod=d.np_prod, sqrt=d.f_sqrt, abs=d.np_abs, absolute=d.np_abs,
             max=d.np_max, min=d.np_min, maximum=_UFunc(d, "max"), minimum=_UFunc(d, "min"), amax=d.np_max, amin=d.np_min,
